@@ -23,6 +23,10 @@ for i, e in enumerate(meta, 1 + OFF):
     patch = os.path.join(SRC, e["patch"])
     demo = e["demo_cmd"].replace(f"{SRC}/repo", WT).replace("../demo", f"{SRC}/demo")
     demo = re.sub(r"git apply [^&;]*(&&|;)", "", demo)   # the tool applies / removes the change itself
+    if re.search(r"(^|&&|;)\s*cd " + re.escape(SRC) + r"/?\s*(&&|;)", demo):
+        # the command works from the seeder's directory with relative paths: point its `repo` at the scratch worktree
+        demo = re.sub(r"(?<![\w/.-])repo/", WT + "/", demo)
+        demo = re.sub(r"cd repo(?![\w/.-])", "cd " + WT, demo)
     clean()
     rc0, out0 = sh(demo, WT)
     if re.search(r"^(FAIL|--- FAIL|panic:|fatal error)", out0, re.M): rc0 = rc0 or 1
